@@ -187,8 +187,44 @@ Proof.
   rewrite Hq, Hm. split; [reflexivity | exact Hr'].
 Qed.
 
+Lemma quot_range A D M R lo hi : 0 < D -> A = D * M + R -> 0 <= R < D -> lo * D <= A -> A < hi * D -> lo <= M < hi.
+Proof.
+  intros HD HA HR Hlo Hhi. split.
+  - destruct (Z_lt_ge_dec M lo) as [C|C]; [exfalso|lia].
+    assert (D * (M + 1) <= D * lo) by (apply Z.mul_le_mono_nonneg_l; lia). lia.
+  - destruct (Z_lt_ge_dec M hi) as [C|C]; [lia|exfalso].
+    assert (D * hi <= D * M) by (apply Z.mul_le_mono_nonneg_l; lia). lia.
+Qed.
+
 (* ---------------------------------------------------------------------------------------------- *)
 (* round_nneg lands in the interval of its result *)
+
+(* small-context arithmetic used at the end of round_in_interval (nia is only reliable in tiny contexts) *)
+Lemma core_lo_same b W M R A X : 0 < b -> 0 < W -> 0 <= R -> A = b * W * M + R -> X < M * W ->
+  (X + M * W) * b < 2 * A.
+Proof. intros. assert (X * b < M * W * b) by (apply Z.mul_lt_mono_pos_r; lia). nia. Qed.
+Lemma core_lo_up b W M R A : A = b * W * M + R -> b * W <= 2 * R -> (M * W + (M + 1) * W) * b <= 2 * A.
+Proof. intros. nia. Qed.
+Lemma core_lo_up_strict b W M R A : A = b * W * M + R -> b * W < 2 * R -> (M * W + (M + 1) * W) * b < 2 * A.
+Proof. intros. nia. Qed.
+Lemma core_hi_same b W M R A : A = b * W * M + R -> 2 * R <= b * W -> 2 * A <= (M * W + (M + 1) * W) * b.
+Proof. intros. nia. Qed.
+Lemma core_hi_same_strict b W M R A : A = b * W * M + R -> 2 * R < b * W -> 2 * A < (M * W + (M + 1) * W) * b.
+Proof. intros. nia. Qed.
+Lemma core_hi_up b W M R A X : 0 < b -> 0 < W -> A = b * W * M + R -> R < b * W -> (M + 1) * W < X ->
+  2 * A < ((M + 1) * W + X) * b.
+Proof. intros. assert ((M + 1) * W * b < X * b) by (apply Z.mul_lt_mono_pos_r; lia). nia. Qed.
+Lemma core_over_eq b W M R A P : A = b * W * M + R -> b * W <= 2 * R -> M + 1 = P ->
+  ((P - 1) * W + P * W) * b <= 2 * A.
+Proof. intros. subst P. nia. Qed.
+Lemma core_over_big b W V M R A P Q : 0 < b -> 0 <= R -> 0 < W -> A = b * V * M + R -> 2 * W <= V -> Q <= M -> 0 < Q -> P = 2 * Q ->
+  ((P - 1) * W + P * W) * b <= 2 * A.
+Proof.
+  intros. subst P.
+  assert (b * (2 * W) <= b * V) by (apply Z.mul_le_mono_nonneg_l; lia).
+  assert (b * (2 * W) * Q <= b * V * M) by (apply Z.mul_le_mono_nonneg; nia).
+  nia.
+Qed.
 
 Lemma INF_decomp : INF = 2045 * p52 + p53. Proof. rewrite INF_eq, p53_eq. lia. Qed.
 
@@ -232,7 +268,7 @@ Proof.
       assert (Hhigh : A < p53 * D).
       { unfold D, A. rewrite SC_eq, H53, p52_eq. replace (1074 + lf + 1) with (1 + 52 + s) in L1 by (unfold s; lia).
         rewrite !Z.pow_add_r in L1 by lia. change (2 ^ 1) with 2 in L1. lia. }
-      split; [|intros _]; nia.
+      pose proof (quot_range A D M R p52 p53 HD HA HRb Hlow Hhigh). split; [|intros _]; lia.
     - assert (HE : E = -1074) by (unfold E; lia). assert (s = 0) by (unfold s; lia).
       assert (D = b) by (unfold D; rewrite H; change (2 ^ 0) with 1; lia).
       assert (Hhigh : A < p52 * D).
@@ -241,13 +277,23 @@ Proof.
         - pose proof (L (- (lf + 1)) ltac:(lia) ltac:(lia)) as L1.
           replace (- (lf + 1) + lf + 1) with 0 in L1 by lia. change (2 ^ 0) with 1 in L1.
           replace 1074 with (- (lf + 1) + (1074 + lf + 1)) by lia. rewrite Z.pow_add_r by lia.
-          assert (2 ^ (1074 + lf + 1) <= 2 ^ 52) by (apply Z.pow_le_mono_r; lia).
-          pose proof (pow2_gt0 (1074 + lf + 1) ltac:(lia)). nia.
+          assert (HQ : 2 ^ (1074 + lf + 1) <= 2 ^ 52) by (apply Z.pow_le_mono_r; lia).
+          pose proof (pow2_gt0 (1074 + lf + 1) ltac:(lia)) as HQ0.
+          set (P := 2 ^ (- (lf + 1))) in *. set (Q := 2 ^ (1074 + lf + 1)) in *. set (T := 2 ^ 52) in *.
+          clearbody P Q T. clear - L1 HQ HQ0 Hb Ha0.
+          apply Z.lt_le_trans with (b * Q).
+          + replace (a * (P * Q)) with (a * P * Q) by ring. apply Z.mul_lt_mono_pos_r; lia.
+          + rewrite (Z.mul_comm T b). apply Z.mul_le_mono_nonneg_l; lia.
         - pose proof (L (- (lf + 1)) ltac:(lia) ltac:(lia)) as L1.
           replace (- (lf + 1) + lf + 1) with 0 in L1 by lia. change (2 ^ 0) with 1 in L1.
-          assert (2 ^ 1074 <= 2 ^ (- (lf + 1))) by (apply Z.pow_le_mono_r; lia).
-          pose proof (pow2_gt0 52 ltac:(lia)). nia. }
-      split; [|lia]. unfold A in *. nia. }
+          assert (HQ : 2 ^ 1074 <= 2 ^ (- (lf + 1))) by (apply Z.pow_le_mono_r; lia).
+          pose proof (pow2_gt0 52 ltac:(lia)) as HT.
+          set (P := 2 ^ (- (lf + 1))) in *. set (Q := 2 ^ 1074) in *. set (T := 2 ^ 52) in *.
+          clearbody P Q T. clear - L1 HQ HT Hb Ha0.
+          apply Z.le_lt_trans with (a * P); [apply Z.mul_le_mono_nonneg_l; lia|].
+          apply Z.lt_le_trans with (1 * b); [exact L1|]. apply Z.mul_le_mono_nonneg_r; lia. }
+      assert (Hlow : 0 * D <= A) by (rewrite Z.mul_0_l; unfold A; apply Z.mul_nonneg_nonneg; lia).
+      pose proof (quot_range A D M R 0 p52 HD HA HRb Hlow Hhigh). split; [|lia]. lia. }
   destruct HMr as [HM0 HMn].
   (* the rounded significand *)
   set (M' := if 2 * r <? d then M else if d <? 2 * r then M + 1 else if Z.even M then M else M + 1).
@@ -261,53 +307,70 @@ Proof.
         destruct (Z.even M) eqn:Ev.
         * left. split; [reflexivity|]. split; [lia|discriminate].
         * right. split; [reflexivity|]. split; [lia|].
-          rewrite Z.even_succ, <- Z.negb_even, Ev. discriminate. }
+          rewrite Z.add_1_r, Z.even_succ, <- Z.negb_even, Ev. discriminate. }
   assert (HM'r : 0 <= M' <= p53 /\ (0 < s -> p52 <= M')) by (destruct HM' as [(->&_)|(->&_)]; lia).
   set (u0 := (E + 1074) * p52 + M'). fold s in u0.
   assert (Hu0 : ival u0 = M' * 2 ^ s) by (apply ival_enc; lia).
-  assert (Hu0n : 0 <= u0) by (unfold u0; nia).
+  assert (Hu0n : 0 <= u0). { unfold u0. apply Z.add_nonneg_nonneg; [apply Z.mul_nonneg_nonneg|]; lia. }
   assert (Hev : Z.even u0 = Z.even M').
   { unfold u0. rewrite Z.even_add, Z.even_mul. rewrite p52_eq. change (Z.even (2 ^ 52)) with true.
     rewrite orb_true_r. destruct (Z.even M'); reflexivity. }
-  assert (HDs : D = b * 2 ^ s) by reflexivity.
   pose proof (pow2_gt0 s Hs) as Hps.
+  assert (HAW : A = b * 2 ^ s * M + R) by exact HA.
+  assert (HDW : D = b * 2 ^ s) by reflexivity.
+  assert (Hu0e : u0 = s * p52 + M') by reflexivity.
+  assert (HR0 : 0 <= R < b * 2 ^ s) by (rewrite <- HDW; exact HRb).
+  rewrite HDW in HM'.
+  change (in_interval (if INF <=? u0 then INF else u0) a b).
+  clearbody u0 M' M R D. clear HA HRb Hlt Hgt HM HR Hcross HD Hd G L. clear r n d.
+  set (W := 2 ^ s) in *.
   destruct (Z.leb_spec INF u0) as [Hover|Hfin].
   - (* overflow to Infinity *)
     split; [rewrite INF_eq; lia|]. split; [|left; reflexivity].
     right. split; [rewrite INF_eq; lia|].
-    assert (Z.even INF = true) by (rewrite INF_eq, Z.even_mul, p52_eq; reflexivity). rewrite H.
+    assert (HevI : Z.even INF = true) by (rewrite INF_eq, Z.even_mul, p52_eq; reflexivity). rewrite HevI.
     assert (HI : ival INF = p53 * 2 ^ 2045) by (rewrite INF_decomp; apply ival_enc; lia).
     assert (HI1 : ival (INF - 1) = (p53 - 1) * 2 ^ 2045).
     { replace (INF - 1) with (2045 * p52 + (p53 - 1)) by (rewrite INF_decomp; lia). apply ival_enc; lia. }
     rewrite HI, HI1. fold A.
-    assert (Hs45 : 2045 <= s) by (unfold u0 in Hover; rewrite INF_decomp in Hover; nia).
+    assert (Hs45 : 2045 <= s).
+    { destruct (Z_le_gt_dec 2045 s) as [C|C]; [exact C|exfalso].
+      assert (s * p52 <= 2044 * p52) by (apply Z.mul_le_mono_nonneg_r; lia).
+      rewrite Hu0e, INF_decomp in Hover. lia. }
     destruct (Z.eq_dec s 2045) as [Es|Es].
-    + assert (M' = p53) by (unfold u0 in Hover; rewrite INF_decomp, Es in Hover; lia).
+    + assert (HMp : M' = p53) by (rewrite Hu0e, INF_decomp, Es in Hover; lia).
       destruct HM' as [(HMe&_)|(HMe&Hge&_)]; [lia|].
-      rewrite Es in HDs. nia.
-    + assert (2 ^ 2046 <= 2 ^ s) by (apply Z.pow_le_mono_r; lia).
-      replace 2046 with (2045 + 1) in H1 by lia. rewrite pow2_S in H1 by lia.
-      assert (p52 <= M) by lia.
-      pose proof (pow2_gt0 2045 ltac:(lia)). nia.
+      unfold W in *. rewrite Es in *.
+      apply (core_over_eq b (2 ^ 2045) M R A p53 HAW Hge). lia.
+    + assert (HW2 : 2 ^ 2046 <= W) by (apply Z.pow_le_mono_r; lia).
+      replace 2046 with (2045 + 1) in HW2 by lia. rewrite pow2_S in HW2 by lia.
+      pose proof (pow2_gt0 2045 ltac:(lia)) as HW0.
+      apply (core_over_big b (2 ^ 2045) W M R A p53 p52); lia.
   - split; [lia|]. split.
     + (* lower end *)
       destruct (Z.eq_dec u0 0) as [Ez|Ez]; [left; exact Ez|right]. split; [lia|].
       fold A. rewrite Hu0, Hev.
       destruct HM' as [(HMe&Hle&Hst)|(HMe&Hge&Hst)].
       * pose proof (ival_mono_lt (u0 - 1) u0 ltac:(lia) ltac:(lia)) as Hlt1. rewrite Hu0 in Hlt1.
-        assert ((ival (u0 - 1) + M' * 2 ^ s) * b < 2 * A) by nia.
-        destruct (Z.even M'); lia.
-      * assert (Hp1 : ival (u0 - 1) = M * 2 ^ s).
-        { replace (u0 - 1) with (s * p52 + M) by (unfold u0; lia). apply ival_enc; lia. }
+        rewrite HMe in *.
+        pose proof (core_lo_same b W M R A (ival (u0 - 1)) Hb Hps ltac:(lia) HAW Hlt1).
+        destruct (Z.even M); lia.
+      * assert (Hp1 : ival (u0 - 1) = M * W).
+        { replace (u0 - 1) with (s * p52 + M) by lia. apply ival_enc; lia. }
         rewrite Hp1, HMe.
-        destruct (Z.even (M + 1)) eqn:Ev; [nia|]. specialize (Hst eq_refl). nia.
+        destruct (Z.even (M + 1)) eqn:Ev.
+        -- apply (core_lo_up b W M R A HAW Hge).
+        -- apply (core_lo_up_strict b W M R A HAW (Hst eq_refl)).
     + right. split; [lia|]. fold A. rewrite Hu0, Hev.
       destruct HM' as [(HMe&Hle&Hst)|(HMe&Hge&Hst)].
-      * assert (Hp1 : ival (u0 + 1) = (M + 1) * 2 ^ s).
-        { replace (u0 + 1) with (s * p52 + (M + 1)) by (unfold u0; lia). apply ival_enc; lia. }
+      * assert (Hp1 : ival (u0 + 1) = (M + 1) * W).
+        { replace (u0 + 1) with (s * p52 + (M + 1)) by lia. apply ival_enc; lia. }
         rewrite Hp1, HMe.
-        destruct (Z.even M) eqn:Ev; [nia|]. specialize (Hst eq_refl). nia.
+        destruct (Z.even M) eqn:Ev.
+        -- apply (core_hi_same b W M R A HAW Hle).
+        -- apply (core_hi_same_strict b W M R A HAW (Hst eq_refl)).
       * pose proof (ival_mono_lt u0 (u0 + 1) ltac:(lia) ltac:(lia)) as Hlt1. rewrite Hu0 in Hlt1.
-        assert (2 * A < (M' * 2 ^ s + ival (u0 + 1)) * b) by nia.
-        destruct (Z.even M'); lia.
+        rewrite HMe in *.
+        pose proof (core_hi_up b W M R A (ival (u0 + 1)) Hb Hps HAW ltac:(lia) Hlt1).
+        destruct (Z.even (M + 1)); lia.
 Qed.
